@@ -82,7 +82,7 @@ func c13TLVTypes() []uint8 {
 }
 
 // c13GarbageLen: the largest garbage length for a command type. The number of paths grows with
-// (number of tags)^(number of TLVs that fit), so the quick tier stops at 13 bytes (two TLVs, the second one with an empty value); the
+// (number of tags)^(number of TLVs that fit), so the quick tier stops at 12 bytes (two TLVs with empty values, or one TLV with up to five value bytes); the
 // subscriber decoders additionally split their uid set on NUL bytes of symbolic content.
 func c13GarbageLen(t uint8) int {
 	if t == cmdTypeAddSubscribers || t == cmdTypeRemoveSubscribers {
@@ -94,7 +94,7 @@ func c13GarbageLen(t uint8) int {
 	if zzsym.Thorough() {
 		return 20
 	}
-	return 13
+	return 12
 }
 
 // c13Garbage feeds decodeCommand with an arbitrary byte string of length 0..max whose type byte is one of
@@ -151,7 +151,7 @@ func Harness_C13_GarbageC() { c13Garbage(24, 35, false) }
 func Harness_C13_GarbageJSONFraming() {
 	max := 16
 	if zzsym.Thorough() {
-		max = 24
+		max = 20
 	}
 	n := zzsym.Choice("len", max+1)
 	data := zzsym.Bytes("data", n)
@@ -261,9 +261,9 @@ func c13MaxItems() int {
 	return 2
 }
 
-// c13Machine builds the real state machine over a closed metadata DB (a *metadb.DB without an engine:
+// c13ClosedMachine builds the real state machine over a closed metadata DB (a *metadb.DB without an engine:
 // every read and every write-batch operation answers dberrors.ErrClosed, nothing touches Pebble).
-func c13Machine(slot uint64, owned []uint16, legacy bool) *stateMachine {
+func c13ClosedMachine(slot uint64, owned []uint16, legacy bool) *stateMachine {
 	var sm multiraft.StateMachine
 	var err error
 	if legacy {
@@ -402,7 +402,7 @@ func Harness_C13_ApplyBatchRefusal() {
 	owned := c13U16s("owned", 1+zzsym.Choice("owned.len", 2))
 	legacy := zzsym.Choice("legacy", 2) == 1
 	const slot = 7
-	m := c13Machine(slot, owned, legacy)
+	m := c13ClosedMachine(slot, owned, legacy)
 	env := zzsym.U16("envelope")
 	kind := zzsym.Choice("kind", 4)
 	var data []byte
